@@ -65,6 +65,13 @@ Theorem C15_no_element_dropped : forall (N : num_ops) fuel ty (o : list (string 
   from_frag fuel ty (JObj o) p = Ok a -> elements ty o = Some xs -> n_children a = List.length xs.
 Proof. intros N. apply keeps_every_element. Qed.
 
+(* ... and a Categorize has exactly one bin per key of its "bins" object (the keys of a parsed JSON
+   object - a Python dict - are distinct) *)
+Theorem C15_categorize_no_bin_dropped : forall (N : num_ops) fuel (o : list (string * json N)) p a kvs,
+  from_frag fuel "Categorize" (JObj o) p = Ok a -> jget "bins" o = Some (JObj kvs) ->
+  NoDup (map fst kvs) -> n_children a = List.length kvs.
+Proof. intros N. apply categorize_keeps_every_bin. Qed.
+
 (* every document produced by toJson is accepted (exact instance, every tree satisfying jwf, see
    C04_round_trip) *)
 Theorem C15_accepts_own_documents : forall (a : agg Xq) fuel, jwf a -> (height a <= fuel)%nat ->
@@ -77,6 +84,7 @@ Print Assumptions C15_negative_count.
 Print Assumptions C15_entries_not_a_number.
 Print Assumptions C15_no_element_dropped.
 Print Assumptions C15_accepts_own_documents.
+Print Assumptions C15_categorize_no_bin_dropped.
 Print Assumptions C15_not_an_object.
 Print Assumptions C15_unknown_type.
 Print Assumptions C15_wrong_keys.
